@@ -235,11 +235,14 @@ func (p *parser) quant() (Expr, error) {
 		if n.k != "id" {
 			return nil, fmt.Errorf("%s: expected variable name, got %q", kind, n.s)
 		}
-		ty := p.next()
-		if ty.k != "id" {
+		tys := ""
+		for !(p.isOp(",") || p.isOp("::")) && p.peek().k != "eof" {
+			tys += p.next().s
+		}
+		if tys == "" {
 			return nil, fmt.Errorf("%s: expected type after %s", kind, n.s)
 		}
-		vars = append(vars, Param{n.s, ty.s})
+		vars = append(vars, Param{n.s, tys})
 		if p.isOp(",") {
 			p.next()
 			continue
@@ -769,12 +772,16 @@ func Parse(path, src string) (*File, error) {
 				b, _ := strconv.Atoi(parts[1])
 				cur.Unroll[a] = b
 			case first == "loop":
-				n, err := strconv.Atoi(strings.TrimSuffix(strings.TrimSpace(rest), ":"))
-				if err != nil {
-					return nil, fail(l, fmt.Errorf("loop: expected ordinal"))
-				}
+				id := strings.TrimSuffix(strings.TrimSpace(rest), ":")
 				curLoop = &LoopSpec{}
-				cur.Loops[n] = curLoop
+				if n, err := strconv.Atoi(id); err == nil {
+					cur.Loops[n] = curLoop
+				} else {
+					if cur.NamedLoops == nil {
+						cur.NamedLoops = map[string]*LoopSpec{}
+					}
+					cur.NamedLoops[id] = curLoop
+				}
 			case first == "invariant":
 				if curLoop == nil {
 					return nil, fail(l, fmt.Errorf("invariant outside loop"))
